@@ -53,6 +53,8 @@ type SrvCase struct {
 	Cfg    SrvCfg `json:"cfg"`
 	Script []CSym `json:"script"`
 	End    string `json:"end"` // eof (half-close) | wait | silence | close-now (vanish before the answer) | cut (reset)
+	// WarmUp (C10): before the case, another server channel of the same process negotiates with an offer that contains none
+	WarmUp bool `json:"warmUp,omitempty"`
 }
 
 type CBEntry struct {
